@@ -335,10 +335,60 @@ theorem numberToFloat_truncated_decided {F : FTy} (hF : IsLemireFloat F) (slow :
   rw [if_neg (by omega), toNative_eq F fp n.isNegative hsound, hbits, hlit]
   rfl
 
+/-- **`C01_decimal_correct_all`** — the decimal theorem for **every** input, truncated mantissas included, with the one
+residual hypothesis listed explicitly: `hdec` — on a truncated `Number` (more than 19 significant digits) the two-pass wrapper
+of Eisel–Lemire answers validly (both `w` and `w+1` round to the same float), i.e. the slow path is not consulted. `hdec`
+is a decidable statement about the input (evaluate `Lemire.lemire`); it fails only for inputs within `10^-19` relative distance
+of a rounding boundary. -/
+theorem C01_decimal_correct_all (feats : Features) (hcompact : feats.compact = false) (fmt : Format)
+    (hr : fmt.mantissaRadix = 10) (hb : fmt.exponentBase = 10)
+    (hclass : feats.format = false ∨ C12.SepPrefixFree fmt)
+    (o : POpts) {F : FTy} (hF : IsLemireFloat F) (isPartial : Bool) (s : List Nat)
+    (h256 : ∀ x ∈ s, x < 256) (hlen : s.length < 2 ^ 60)
+    (hdec : ∀ n cnt, parseFloatSyntax ⟨feats, fmt, false⟩ o isPartial s (formatError feats fmt).isNone =
+      .ok (.number n cnt) → n.manyDigits = true →
+      ∃ fp, Lemire.lemire F (numOf n) false = .ok fp ∧ 0 ≤ fp.exp) :
+    parseFloatAlgoModel slowModel feats fmt o isPartial F s = parseFloatModel feats fmt o isPartial F.fmt s := by
+  apply parseFloatAlgoModel_eq_valid
+  intro hval n cnt hp
+  have hdp := dp_not_digit feats fmt o (by omega) hval
+  cases hmany : n.manyDigits with
+  | false =>
+    obtain ⟨hx, hs, hfew19⟩ := C01Number.number_exact_of_syntax ⟨feats, fmt, false⟩ rfl hclass hr hb o hdp isPartial s _
+      h256 hlen n cnt hp hmany
+    rw [numberToFloat_exact hF ⟨feats, fmt, false⟩ hcompact hr hb n hmany hx hs hfew19]
+    have hr' : (⟨feats, fmt, false⟩ : Cfg).mantissaRadix = 10 := hr
+    have hb' : (⟨feats, fmt, false⟩ : Cfg).exponentBase = 10 := hb
+    rw [(spec_forms hF ⟨feats, fmt, false⟩ (by omega) (by omega) (by omega) n hmany hx.2.2).2]
+  | true =>
+    obtain ⟨hs, hN, hw, _, hwlt, hq, hE1, hE2, hl1, hl2⟩ := C01Number.number_truncated_of_syntax ⟨feats, fmt, false⟩ rfl
+      hclass hr hb o hdp isPartial s _ h256 hlen n cnt hp hmany
+    exact numberToFloat_truncated_decided hF slowModel ⟨feats, fmt, false⟩ hcompact hr hb n hmany hs hN hw hwlt hq
+      hE1 hE2 hl1 hl2 (hdec n cnt hp hmany)
+
+/-- `hdec` as a Boolean -/
+def wrapperDecides (F : FTy) (n : Num) : Bool :=
+  match Lemire.lemire F n false with
+  | .ok fp => decide (0 ≤ fp.exp)
+  | _ => false
+
+theorem wrapperDecides_spec (F : FTy) (n : Num) (h : wrapperDecides F n = true) :
+    ∃ fp, Lemire.lemire F n false = .ok fp ∧ 0 ≤ fp.exp := by
+  unfold wrapperDecides at h
+  split at h
+  · rename_i fp hfp
+    exact ⟨fp, hfp, by simpa using h⟩
+  · cases h
+
+/-- non-vacuity of `hdec`: the words of a truncated input (`1.234567890123456789…`) on which the wrapper decides -/
+example : ∃ fp, Lemire.lemire FTy.f64 ⟨1234567890123456789, -18, false, true⟩ false = .ok fp ∧ 0 ≤ fp.exp :=
+  wrapperDecides_spec _ _ (by decide +kernel)
+
 /-- **full statement** (a `Prop`): the same for **every** input, truncated mantissas (more than 19 significant digits)
-included, and for `compact` builds. Missing for it: the `many_digits = true` case — the two-pass wrapper of `lemire` is
-proved (`lemire_wrapper_all`), but its invalid-marked estimates (`compute_error`) are not yet characterised, the
-`Number`'s truncated `mantissa`/`exponent` words are not yet related to the digit slices (`SlowDomain.value`), and
+included, and for `compact` builds. Proved towards it: untruncated inputs (`C01_decimal_correct`) and truncated inputs on
+which the two-pass wrapper decides (`C01_decimal_correct_all`, hypothesis `hdec`). Missing: truncated inputs where `w` and
+`w+1` round differently — the `compute_error` estimates there are not yet characterised (`SlowDomain.estimate` for truncated
+`Number`s; their words are related to the slices by `number_truncated_of_syntax`), and
 `Props.C01Slow.truncation_invariant` (non-zero cut tail beyond `max_digits`) is open; `compact`: the Bellerophon analogue
 of `lemire_estimate_facts`. -/
 def C01_decimal_full : Prop :=
